@@ -10,6 +10,7 @@ Structural clauses decided (DESIGN.md §5 C02):
 """
 from ..engine import cfg as C
 from ..engine import q as Q
+from ..engine import tables as TB
 from ..engine import terms as T
 from ..engine.facts import AnchorMissing, callee_of
 
@@ -177,6 +178,86 @@ def rule_R1_R2(ctx):
             # R2 decisive: calculate_distance has a None-capable component over that field
             _check_decisive(ctx, P, g, fname, inst)
     ctx.floor("R1", "key fields of wildcard-bearing enum type (IpVersion, PayloadSize, http::Version)", n_enum_fields, 3)
+    n_prod = 0
+    for g in gens:
+        n_prod += _rule_product(ctx, P, g)
+    ctx.floor("R1", "key generators with two or more wildcard-bearing fields (cartesian product required)", n_prod, 1)
+
+
+ITER_PLAIN = ("::next", "::into_iter", "::iter", "::deref", "::as_slice", "::clone", "::copied", "::cloned", "::as_ref", "::borrow",
+              "::from_elem", "::into_vec", "::new", "::box_new", "::from", "::into", "::new_uninit", "::write_via_move", "::box_assume_init_into_vec_unsafe", "::write")
+ITER_ADAPTERS = ("::zip", "::cycle", "::take", "::skip", "::step_by", "::filter", "::take_while", "::skip_while", "::rev", "::chain",
+                 "::filter_map", "::nth", "::last", "::peekable", "::scan", "::map_while", "::dedup", "::windows", "::chunks")
+
+
+def _rule_product(ctx, P, g):
+    """R1 (product): when the key has several wildcard-bearing fields, the stored keys must be the cartesian product of the
+    per-field expansions: the key aggregate sits inside one loop per such field, the loops are nested, each is a plain
+    slice iteration (no zip / cycle / take ...) over a vector of that field's type."""
+    key_adt = _ret_key_adt(P, g)
+    sig_ty = _sig_type_of(g)
+    fields = [(kf, ety) for (kf, ety) in _enum_fields(P, key_adt) if WILDCARD in P.variants(ety)]
+    if len(fields) < 2:
+        return 0
+    inst = "%s<-%s:product" % (key_adt.split("::")[-1], sig_ty.split("::")[-1])
+    names = [f["name"] for f in P.adt(key_adt)["variants"][0]["fields"]]
+    S = T.Slicer(g, P)
+    aggs = list(Q.aggregates(g, key_adt, None))
+    if not aggs:
+        ctx.cannot("R1", inst, "key construction (aggregate of %s) not found in %s" % (key_adt, g.path), ctx.loc(g))
+        return 1
+    loops = C.loops(g)
+    okall = True
+    why = ""
+    for (i, j, st) in aggs:
+        t = S.rvalue(st["r"], i, j)
+        per_field = {}
+        for (kf, ety) in fields:
+            op = t[4][names.index(kf)]
+            nexts = [c for c in T.calls_in(op) if c[1].endswith("::next")]
+            if len(nexts) != 1:
+                okall, why = False, "field %s is not the item of exactly one iteration (%d iterator items in its origin)" % (kf, len(nexts))
+                break
+            bad = sorted({T.short(c[1]) for c in T.calls_in(nexts[0]) if c[1].endswith(ITER_ADAPTERS)})
+            if bad:
+                okall, why = False, "field %s iterates through %s: not every combination of expanded values is stored" % (kf, ",".join(bad))
+                break
+            nb = nexts[0][3]
+            mine = [h for h, blks in loops.items() if nb in blks and i in blks]
+            if not mine:
+                okall, why = False, "key is not built inside the loop over the expansion of %s" % kf
+                break
+            # innermost loop containing both the next() call and the aggregate
+            h = min(mine, key=lambda x: len(loops[x]))
+            per_field[kf] = (h, nb, ety)
+        if not okall:
+            break
+        hs = [v[0] for v in per_field.values()]
+        if len(set(hs)) != len(hs):
+            okall, why = False, "fields %s take their values from the same loop (pairwise, not cartesian)" % ",".join(per_field)
+            break
+        order = sorted(hs, key=lambda x: len(loops[x]))
+        nested = all(loops[order[k]] < loops[order[k + 1]] for k in range(len(order) - 1))
+        if not nested:
+            okall, why = False, "the loops over the expansions are not nested"
+            break
+        # the inner loops restart for every outer item: their iterator is created inside the enclosing loop
+        for k in range(len(order) - 1):
+            inner_h = order[k]
+            outer = loops[order[k + 1]]
+            inner_next = [v[1] for v in per_field.values() if v[0] == inner_h][0]
+            recv = g.blocks[inner_next]["t"]["args"][0]
+            pl = recv.get("m") or recv.get("c")
+            root = TB._root_local(g, pl["l"]) if pl else None
+            defs = [db for (db, dj, full) in S.defs().get(root, [])] if root is not None else []
+            if not defs or not all(d in outer for d in defs):
+                okall, why = False, "the inner iteration is not restarted for every outer value"
+        if not okall:
+            break
+    ctx.check(okall, "R1", inst, "keys = nested plain iteration over the expansions of %s (cartesian product)" % ", ".join(k for k, _ in fields),
+              "stored keys are not the cartesian product of the per-field wildcard expansions: " + why +
+              "; a signature with several wildcards is then invisible to some observations the distance function accepts", ctx.loc(g))
+    return 1
 
 
 def _obs_generators(P, key_adt):
@@ -537,6 +618,11 @@ def rule_R4_R5_R6(ctx):
             # inner enumerates something derived from the outer item
             inner_from_outer = e1 and any(c in T.calls_in(e1[0]) for c in e0) and not T.has_call(e1[0], "::rev")
             key_from_gen = T.has_call(recv, "generate_index_keys_for_db_entry")
+            adapters = sorted({T.short(c[1]) for e in (e0 + e1) for c in T.calls_in(e) if c[1].endswith(ITER_ADAPTERS)})
+            if adapters:
+                ctx.fail("R4", "new:positions", "label / signature positions are counted after %s: they no longer index `entries` (find_best_match "
+                         "reads entries[label_idx].1[sig_idx])" % ",".join(adapters), ctx.loc(new, blk))
+                continue
             if outer_over_entries and inner_from_outer and key_from_gen:
                 okp = True
                 det = "index[key].push((label_idx, sig_idx)) with label_idx from entries.iter().enumerate(), sig_idx from the label's vector"
